@@ -6,12 +6,14 @@ import json, subprocess, sys
 props = [json.loads(l) for l in open('/verif/properties.jsonl')]
 implemented = subprocess.run(['/verif/bin/adgverif', 'list'], capture_output=True, text=True).stdout.split()
 
-# property -> (technique, level text, level note, design ref)
-TABLE = {
- 'C06': ('interprocedural length-provenance dataflow over go/ssa (every decoder input bounded by the bytes read) + use-after-Put path rule',
-         'Structural clause: every []byte reaching (*dns.Msg).Unpack is, on all def-use paths, a slice bounded by a read count, a slice of the announced length completely filled by a successful io.ReadFull, or a freshly allocated buffer; no receive buffer is used after Pool.Put. Given that Unpack reads only its argument this is the whole mechanism of the property; level other because the behavioural statement is not itself proved.',
-         'Trusts go/types + go/ssa (x/tools v0.29.0), that Unpack is a function of its argument, and that Read-like calls return the count of bytes written at the start of the buffer.'),
-}
+info = json.loads(subprocess.run(['/verif/bin/adgverif', 'list', '-json'], capture_output=True, text=True).stdout)
+TABLE = {}
+for pid, d in info.items():
+    if not d['technique'] or d['text'] == 'wip':
+        continue
+    TABLE[pid] = (d['technique'],
+                  'Structural clauses decided on every path of the current source (necessary conditions of the property, not the behavioural statement itself): ' + d['text'] + ' NOT covered: ' + d['not_covered'],
+                  'Trusts go/types and go/ssa (x/tools v0.29.0) and the library primitives listed in DESIGN.md section 4. ' + ' '.join('Assumes ' + a + '.' for a in (d['assumptions'] or [])))
 NA_REASON = {}
 
 m = {
